@@ -288,6 +288,17 @@ pub fn check_fault(m: &Model, c: &SeqCase, f: &Fault) -> CheckResult {
                 return Ok(());
             }
         }
+        "unreadable-repeat" => {
+            // a packet of the reply set the reference decoder rejects (what the packet's own decoder makes of a repeated
+            // object cut short by its container is C13's business; here it is a packet that cannot be decoded)
+            if f.pos == 0 || fb.len() < 3 {
+                return Ok(());
+            }
+            let Some((_, _, _, ty)) = m.owned(s).iter().find(|(c, i, _, _)| *c == fb[0] && *i == fb[1]) else { return Ok(()) };
+            if decode(&m.t, &m.t[*ty], &fb).is_ok() {
+                return Ok(());
+            }
+        }
         "truncated" => {
             // header announces more than is delivered
             if fb.len() >= 3 {
@@ -411,6 +422,8 @@ pub fn replay_c06(check: &str, i: &Value) -> Option<CheckResult> {
 /// Pools of canonical encodings per packet type, built deterministically from the seed.
 pub struct Pools {
     pub by_type: std::collections::BTreeMap<String, Vec<Vec<u8>>>,
+    /// per type: packets with a repeated object cut short by the end of its container (c13::damaged_packets)
+    pub damaged: std::collections::BTreeMap<String, Vec<Vec<u8>>>,
 }
 impl Pools {
     pub fn build(ctx: &Ctx, m: &Model, n: usize, cfg: GenCfg) -> Self {
@@ -424,8 +437,16 @@ impl Pools {
         names.sort();
         names.dedup();
         let mut by_type = std::collections::BTreeMap::new();
+        let mut damaged = std::collections::BTreeMap::new();
         for name in names {
             let l = &m.t[name];
+            if l.ctrl.is_some() {
+                let mut d: Vec<Vec<u8>> = ctx.sample_values(ctx.seed_for("pool-damaged", fnv_str(name)), n.min(40), &strategy_for(&m.t, name, cfg)).into_iter().filter(|v| is_canonical(&m.t, l, v)).flat_map(|v| crate::props::c13::damaged_packets(&m.t, name, &v)).collect();
+                d.sort_by_key(|b| b.len());
+                d.dedup();
+                d.truncate(64);
+                damaged.insert(name.to_string(), d);
+            }
             let mut v: Vec<Vec<u8>> = ctx.sample_values(ctx.seed_for("pool", fnv_str(name)), n, &strategy_for(&m.t, name, cfg)).into_iter().filter(|v| is_canonical(&m.t, l, v)).map(|v| encode(&m.t, l, &v).unwrap()).collect();
             // packets with an extended-length header (body >= 255 bytes), where the layout has a field that can grow
             for (k, target) in [255usize, 256, 300, 700, 4000].iter().enumerate() {
@@ -442,7 +463,7 @@ impl Pools {
             v.dedup();
             by_type.insert(name.to_string(), v);
         }
-        Pools { by_type }
+        Pools { by_type, damaged }
     }
     pub fn pick(&self, ty: &str, sel: u16) -> &Vec<u8> {
         let p = &self.by_type[ty];
@@ -667,6 +688,16 @@ fn faults_at(m: &Model, s: &SeqEntry, pools: &Pools, pos: usize, salt: usize) ->
             }
         }
     }
+    // a well-framed packet of the reply set in which a repeated object is cut short by the end of its container
+    if pos > 0 {
+        for (k, (_, _, _, ty)) in m.owned(s).iter().enumerate() {
+            if let Some(d) = pools.damaged.get(*ty).filter(|d| !d.is_empty()) {
+                for j in 0..2 {
+                    out.push(Fault { pos, kind: "unreadable-repeat".into(), bytes: hex(&d[(salt * 31 + k * 7 + j * 13) % d.len()]) });
+                }
+            }
+        }
+    }
     // truncated packets, then the connection ends
     let some = if pos == 0 { ACK.to_vec() } else { pools.pick(m.owned(s)[salt % m.owned(s).len()].3, (salt * 7919 % 65536) as u16).clone() };
     out.push(Fault { pos, kind: "truncated".into(), bytes: hex(&some[..1]) });
@@ -884,10 +915,10 @@ pub fn run_c06(tier: Tier) -> i32 {
         });
     });
     stats.merge(s);
-    stats.exhaustive_parts = vec![format!("17 sequences x every valid reply-script prefix of length <= {depth} x every fault (4 NACK codes, foreign control fields incl. near misses of the expected ones, malformed bodies per reply kind, 5 truncations, EOF) at the position behind the prefix (and at the ack position)"), "17 sequences x all 65 536 control fields outside the expected set, at the acknowledgement position and instead of the first reply".into()];
+    stats.exhaustive_parts = vec![format!("17 sequences x every valid reply-script prefix of length <= {depth} x every fault (4 NACK codes, foreign control fields incl. near misses of the expected ones, malformed bodies per reply kind, repeated objects cut short by their container, 5 truncations, EOF) at the position behind the prefix (and at the ack position)"), "17 sequences x all 65 536 control fields outside the expected set, at the acknowledgement position and instead of the first reply".into()];
     ctx.finish(
         stats,
-        "17 Sequence impls (and the firmware upload stream with 0..3 good data requests) x valid script prefixes x one fault {NACK 84 xx, packet outside the reply set, undecodable body inside the reply set, truncated packet + end of stream, end of stream} at the acknowledgement position or instead of reply j, a read error (connection reset / aborted / broken pipe / timed out / other) at a packet boundary or inside a packet, and the connection lost for writing (BrokenPipe) at the command and at every acknowledgement incl. the one of the final packet; exhaustive over prefixes up to the stated depth, then proptest prefixes up to 8 replies with random bodies. Oracle: Ok items for the replies before the fault, exactly one Err, then None twice without I/O, and no byte written once the faulty bytes were released. non-trivial = fault behind at least one acknowledged reply (position >= 2); distinct by (sequence, prefix bytes, fault)",
+        "17 Sequence impls (and the firmware upload stream with 0..3 good data requests) x valid script prefixes x one fault {NACK 84 xx, packet outside the reply set, undecodable body inside the reply set (cut / missing / broken TLV, or a repeated object cut short by the end of its container), truncated packet + end of stream, end of stream} at the acknowledgement position or instead of reply j, a read error (connection reset / aborted / broken pipe / timed out / other) at a packet boundary or inside a packet, and the connection lost for writing (BrokenPipe) at the command and at every acknowledgement incl. the one of the final packet; exhaustive over prefixes up to the stated depth, then proptest prefixes up to 8 replies with random bodies. Oracle: Ok items for the replies before the fault, exactly one Err, then None twice without I/O, and no byte written once the faulty bytes were released. non-trivial = fault behind at least one acknowledged reply (position >= 2); distinct by (sequence, prefix bytes, fault)",
         &["'malformed' bodies are used only when both the reference decoder and the packet's own decoder reject them", "for the upload stream the faults - among them well-formed requests for ids that were not announced, below / between / above the announced ones - are placed behind 0..3 answered data requests (props/c11.rs check_upload_fault)"],
         false,
     )
